@@ -519,8 +519,8 @@ class OutputVariable(Variable):
         # so a writeable array is needed for the in-place replacements below
         value = np.array(self.defuzzifier.defuzzify(self.fuzzy, self.minimum, self.maximum))
 
-        # previous value is the last element of the value at t
-        self.previous_value = np.take(self.value, -1).astype(float)
+        # previous value is the last element of the value at t (nan if the value at t is an empty batch)
+        self.previous_value = np.take(self.value, -1).astype(float) if np.size(self.value) else nan
 
         # Locking previous values
         if self.lock_previous:
